@@ -347,8 +347,27 @@ class Crate:
                     rs = self.roots_of(name)
                     if rs and rs != {name}:
                         del self.bodies[name]
-        self._link()
         self.adts = {a["path"]: a for a in self.raw["adts"]}
+        self.impls = self.raw["impls"]
+        self._link()
+        # options the rules do not know (new fields of the clap argument structs) are taken at their defaults
+        self.specialized = {}
+        if os.environ.get("JAWK_SA_NO_SPECIALIZE") != "1":
+            from lib import specialize as _sp
+            defaults = _sp.new_option_defaults(self)
+            if defaults:
+                if self.bodies is self.raw_bodies:
+                    self.bodies = dict(self.raw_bodies)
+                for name in list(self.bodies):
+                    b = self.bodies[name]
+                    env = _sp.seed_env(self, b, defaults)
+                    if not env:
+                        continue
+                    nb = _sp.specialize(Body, self, name, b, env)
+                    if nb is not None:
+                        self.bodies[name] = nb
+                        self.specialized[name] = sorted(env)
+                self._link()
         self.statics = self.raw["statics"]
         self.aliases = {a["path"]: a["ty"] for a in self.raw["aliases"]}
         self.traits = {t["path"]: t for t in self.raw["traits"]}
